@@ -111,5 +111,15 @@ CLAIMED = {
         'stacks encoded by the specification are parsed to the values.',
    note='Trusted: z3; the schema encoder in harness/C17.py; specs/cellspec.py. Control data holding a stack or a non-empty save list is outside the claim '
         '(serialize and parse use different value forms there); -2^63 may use either integer form.'),
+ 'C08': dict(
+   text='Bounded model checking of an object pool by symbolic execution of the real Cell/Slice/Builder/TvmBitarray (and HashMap, VmStack) code: a cell '
+        'obtained by 9 routes (builder, to_cell, plain bit arrays of 0/5/8 bits, TvmBitarray, BoC parsing, slice conversion, copy) with ALL contents '
+        'symbolic, then every sequence of 0..1 and a seeded set of sequences of 2 (thorough: all 225, plus triples) operations from a 15-operation alphabet '
+        '(consuming/draining/mutating derived slices, builders, copies, the originating builder, parents, other cells, repeated serialisation with '
+        'different options, ordering, hashing, dictionaries, VM stacks); after every step the solver shows for all contents that bits, length, references, '
+        'children, hash, depth and to_boc under all 8 option sets equal those of an identical twin cell that was only observed (in a different call order).',
+   note='Trusted: z3; CRC-32C as uninterpreted function; SHA-256 axiom. The technique adds quantification over contents; aliasing itself is structural. '
+        'Sequences longer than 3 and multi-threading are outside the claim.',
+   technique='bounded model checking of operation sequences by symbolic execution of the real source with z3 (SX); replay on the untouched library'),
 }
 NOT_APPLICABLE = {}
